@@ -80,6 +80,7 @@ func padSweep(r *evid.Run) {
 	}
 	enum.Parallel(r, maxPad+1, func(w *enum.Worker) func(int) {
 		c := newChecker()
+		c.fresh = true
 		w.Describe = func() any { return Case{Input: c.cur, InputText: string(c.cur)} }
 		w.Done = func() { r.Outcomes(c.out); c.out = map[string]int64{} }
 		return func(pad int) {
